@@ -23,6 +23,16 @@ pub fn content(rng: &mut Rng, len: usize, class: u64) -> Vec<u8> {
     }
 }
 
+/// inputs at the store-raw boundary for `method`: random prefix + constant run, with the prefix length chosen where the
+/// compressor's output flips from framed to raw (payload length n-2, n-1, n) — the corner the reader re-derives from sizes
+pub fn break_even(rng: &mut Rng, n: usize, method: u8) -> Vec<Vec<u8>> {
+    let prefix = rng.bytes(n);
+    let mk = |r: usize| -> Vec<u8> { let mut v = prefix[..r].to_vec(); v.extend(std::iter::repeat(0x41).take(n - r)); v };
+    let mut last_framed = None;
+    for r in 0..=n { let d = mk(r); match compress(&d, method) { Ok(c) if c.len() < d.len() => last_framed = Some(r), _ => {} } }
+    match last_framed { Some(r) => (r.saturating_sub(1)..=(r + 3).min(n)).map(mk).collect(), None => vec![mk(n / 2)] }
+}
+
 pub fn spellings(rng: &mut Rng, n: &str) -> Vec<String> {
     let mixed: String = n.chars().map(|c| if rng.chance(1, 2) { c.to_ascii_uppercase() } else { c.to_ascii_lowercase() }).collect();
     vec![n.to_string(), n.to_uppercase(), n.to_lowercase().replace('\\', "/"), mixed]
@@ -41,6 +51,15 @@ pub fn gen_case(rng: &mut Rng, lossless_only: bool) -> (Cfg, Vec<F>) {
         let class = rng.below(5);
         let name = match i { 0 => "Data\\File0.txt".to_string(), 1 => "b.bin".to_string(), 2 => "Interface\\Glue\\MainMenu.blp".to_string(), _ => format!("Dir{}\\Sub\\f{}.dat", i % 2, i) };
         files.push(F { name, data: content(rng, len, class), method: *rng.pick(methods), enc: rng.below(3) as u8 });
+    }
+    // one case in four carries store-raw boundary units: as single-unit files and as the middle sector of a sectored file
+    if rng.chance(1, 4) {
+        let m = *rng.pick(&[flags::ZLIB, flags::BZIP2, flags::LZMA, flags::SPARSE]);
+        let n = *rng.pick(&[64usize, 96, 150, 200]).min(&ssz);
+        for (k, d) in break_even(rng, n, m).into_iter().enumerate() {
+            files.push(F { name: format!("edge\\su{k}.bin"), data: d.clone(), method: m, enc: 0 });
+            if n == ssz { let mut big = content(rng, ssz, 4); big.extend_from_slice(&d); big.extend(content(rng, ssz / 2 + 1, 4)); files.push(F { name: format!("edge\\mid{k}.bin"), data: big, method: m, enc: rng.below(3) as u8 }); }
+        }
     }
     (cfg, files)
 }
